@@ -232,8 +232,10 @@ impl Runner {
         out.join(" ")
     }
 
-    pub fn sei_messages<R: BufRead + Clone>(&self, rd: R) -> Vec<String> {
-        let mut scratch = vec![0xAAu8; 7]; // dirty scratch storage on purpose (C17: reuse must not matter)
+    pub fn sei_messages<R: BufRead + Clone>(&self, rd: R) -> Vec<String> { self.sei_messages_scratch(rd, vec![0xAAu8; 7]) }
+    /// the same with the given (possibly dirty, possibly large) scratch storage left behind by an earlier use
+    pub fn sei_messages_scratch<R: BufRead + Clone>(&self, rd: R, scratch: Vec<u8>) -> Vec<String> {
+        let mut scratch = scratch; // dirty scratch storage on purpose (C17: reuse must not matter)
         let mut sr = SeiReader::from_rbsp_bytes(rd, &mut scratch);
         let mut out = vec![]; let mut extra = 0;
         loop {
